@@ -99,13 +99,13 @@ def _case(rng, n, reg):
 def generate(tier, rng):
   if tier == 'quick':
     ns = [0, 1, 2, 3, 5, 8, 9, 12]
-    reps = 2
+    reps = 6
   elif tier == 'search':
     ns = list(range(0, 13))
     reps = 8
   else:
-    ns = list(range(0, 13))
-    reps = 5
+    ns = list(range(0, 13)) + [17, 24]
+    reps = 24
   for rep in range(reps):
     for n in ns:
       for reg in (False, True):
@@ -366,12 +366,17 @@ def oracle(case, obs):
           add('agnostic.domain-loss', f'{tag}: domain_loss {d["loss"]}, per-domain sums of the real losses {exp_dl.tolist()}')
       else:
         # with a regulariser the documented requirement is independence of the batch geometry
+        sig = all(_near(a, b + len(g['layout']) * r) for a, b in zip(d['loss'], exp_dl))
         if first_dom is None:
-          first_dom = (tag, len(g['layout']), d['loss'])
+          first_dom = (tag, len(g['layout']), d['loss'], sig)
         elif not all(_near(a, b) for a, b in zip(d['loss'], first_dom[2])):
-          add('agnostic.domain-metrics.regularizer-per-batch',
-              f'domain_loss with a regulariser depends on the batch geometry: {d["loss"]} over {len(g["layout"])} batches, '
-              f'{first_dom[2]} over {first_dom[1]} batches (same dataset)')
+          msg = (f'domain_loss with a regulariser depends on the batch geometry: {d["loss"]} over {len(g["layout"])} batches, '
+                 f'{first_dom[2]} over {first_dom[1]} batches (same dataset)')
+          if sig and first_dom[3]:
+            # exactly the known defect of this call site: (sum of the real losses) + (#batches) * r in every domain
+            add('agnostic.domain-metrics.regularizer-per-batch', msg)
+          else:
+            add('agnostic.domain-loss.regularized-geometry', msg + f'; not of the form sums + (#batches)*r with sums {exp_dl.tolist()}, r {r}')
     if 'hyp' in g:
       s = case['split']
       for ci, rows in enumerate((list(range(0, s)), list(range(s, n)))):
